@@ -1099,6 +1099,24 @@ def register(M):
             for g, x in items:
                 acc = tm.ite(g, M.apply_gated(ev, g, f, [acc, x]), acc)
             return acc
+        # a fold over a symbolic iterator is the loop `for x in it { acc = f(acc, x) }`: evaluated and classified like one
+        # (a sum written as fold(0, |a, x| a + g(x)) gets the closed form of the sum; anything unrecognised keeps the
+        # term fold(it, init, λ))
+        if it.op in ("iter", "map", "filter", "filter_map", "zip", "enumerate", "chars", "lines") and not ev.discover \
+                and not getattr(ev, "_in_fold_model", False):
+            ev._in_fold_model = True
+            try:
+                cell = ev.new_cell(init, "fold_acc")
+
+                def body(elem, elem_place=None):
+                    cur = ev.read(Place(cell))
+                    ev.write(Place(cell), ev.apply(f, [cur, elem]))
+                    return None
+                M.run_loop(ev, it, body, cx.get("loc") if isinstance(cx, dict) else None)
+                out = ev.read(Place(cell))
+            finally:
+                ev._in_fold_model = False
+            return out
         l, _ = ev.reify(f, 2)
         return mk("fold", it, init, l)
 
